@@ -141,10 +141,13 @@ def counterexample(crate, harness_short):
         "-Z", "concrete-playback", "--concrete-playback=print", "--harness", harness_short,
         "--output-format", "terse", "--harness-timeout", "900"]
     rc, out, secs, timed_out = run(cmd, cwd=scratch.SRC, timeout=1800)
-    m = re.search(r"```\n(.*?#\[test\]\nfn (kani_concrete_playback_\w+)\(\).*?)```", out, re.S)
-    if not m:
+    # Kani prints one test per failed check AND one per satisfied `cover`; the inputs of a cover test need not violate
+    # anything, so a test generated for a failed check is preferred
+    tests = re.findall(r"```\n(.*?#\[test\]\nfn (kani_concrete_playback_\w+)\(\).*?)```", out, re.S)
+    if not tests:
         return None, None, [], out
-    test_text, test_name = m.group(1), m.group(2)
+    failing = [t for t in tests if "Check for `cover`" not in t[0]]
+    test_text, test_name = (failing or tests)[0]
     vals = re.findall(r"^\s*// (.*)\n\s*vec!\[([^\]]*)\]", test_text, re.M)
     decoded = [{"value": v.strip(), "bytes": [int(x) for x in b.replace(" ", "").split(",") if x]} for v, b in vals]
     return test_text, test_name, decoded, out
